@@ -2253,10 +2253,17 @@ class KmipEngine(object):
 
                     # Fetch the attribute from the object and check if it
                     # matches. If not, the object doesn't match, so skip it.
-                    attribute = self._get_attribute_from_managed_object(
-                        managed_object,
-                        name
-                    )
+                    try:
+                        attribute = self._get_attribute_from_managed_object(
+                            managed_object,
+                            name
+                        )
+                    except AttributeError:
+                        # The object does not carry this attribute at all
+                        # (e.g., certificates have no algorithm or length),
+                        # so it cannot match the filter.
+                        add_object = False
+                        break
                     if attribute is None:
                         continue
                     elif name == "Application Specific Information":
